@@ -280,6 +280,13 @@ def _binary_multi(ctx, count, idx):
             args = [(_rand_component(rng), _rand_component(rng, True)) for _ in range(rng.choice([0, 1, 2, 3, 5]))]
             argv += [rng.choice(["-G", "--generator"]), genspec.render(gen, args, rng)]
             want.append((name, args))
+            # the same executable given again with arguments of its own (possibly after other generators): one more process,
+            # which receives its own arguments and not those of its namesake
+            while rng.random() < 0.3:
+                again = [(_rand_component(rng), _rand_component(rng, True)) for _ in range(rng.choice([0, 1, 2, 3]))]
+                argv += [rng.choice(["-G", "--generator"]), genspec.render(gen, again, rng)]
+                want.append((name, again))
+                ctx.stats["binary_multi_repeated_generators"] += 1
         r = ctx.run_slicec(argv + [src], cwd=work, env={"FAKEGEN_LOG": log})
         ctx.note_case(("binmulti", tuple(argv)))
         ctx.stats["binary_multi_runs"] += 1
@@ -290,22 +297,33 @@ def _binary_multi(ctx, count, idx):
         if broken:
             ctx.stats["binary_multi_runs_with_failing_generators"] += 1
         prefixes = set()
+        by_name = {}
         for name, args in want:
+            by_name.setdefault(name, []).append(args)
+        for name, arg_lists in by_name.items():
             cap = [x for x in os.listdir(log) if x.startswith(name + ".") and x.endswith(".stdin")]
-            if len(cap) != 1:
-                ctx.violate("binary-multi-not-started", "generator %s: %d captured requests" % (name, len(cap)), replay)
+            if len(cap) != len(arg_lists):
+                ctx.violate("binary-multi-not-started", "generator %s given %d time(s): %d captured requests" % (name, len(arg_lists), len(cap)), replay)
                 break
-            with open(os.path.join(log, cap[0]), "rb") as f:
-                data = f.read()
-            try:
-                req = wire.decode_request(schema, data)
-            except wire.WireError as e:
-                ctx.violate("binary-multi-undecodable", "request received by %s does not decode completely: %s" % (name, e), replay)
+            received = []
+            bad = False
+            for one in cap:
+                with open(os.path.join(log, one), "rb") as f:
+                    data = f.read()
+                try:
+                    req = wire.decode_request(schema, data)
+                except wire.WireError as e:
+                    ctx.violate("binary-multi-undecodable", "request received by %s does not decode completely: %s" % (name, e), replay)
+                    bad = True
+                    break
+                prefixes.add(data[:req["_end_referenceFiles"]])
+                ctx.stats["binary_multi_generators_checked"] += 1
+                received.append([tuple(x) for x in req["args"]])
+            if bad:
                 break
-            prefixes.add(data[:req["_end_referenceFiles"]])
-            ctx.stats["binary_multi_generators_checked"] += 1
-            if [tuple(x) for x in req["args"]] != args:
-                ctx.violate("binary-multi-args-differ", "generator %s received %r, its specification says %r" % (name, req["args"], args), replay)
+            # processes of one executable are told apart by what they received: the multiset must be the one specified
+            if sorted(received) != sorted(arg_lists):
+                ctx.violate("binary-multi-args-differ", "generator %s received %r, its specification(s) say %r" % (name, received, arg_lists), replay)
                 break
         else:
             if len(prefixes) != 1:
@@ -322,7 +340,8 @@ def main(tier, seed):
               "(c) 1-4 repeated -G options; (d) real binary runs with a capturing generator. distinct_nontrivial = distinct "
               "non-empty specification strings / argv vectors"),
         required={"alphabet_cases": 3000, "roundtrip_pairs": 100, "expected_reject": 100, "expected_accept": 100,
-                  "binary_args_checked": 20, "binary_rejects": 5, "binary_multi_generators_checked": 100},
+                  "binary_args_checked": 20, "binary_rejects": 5, "binary_multi_generators_checked": 100,
+                  "binary_multi_repeated_generators": 20},
         assumptions=["reference parser in vlib/genspec.py encodes the statement of C19; whitespace = Unicode White_Space, "
                      "only ASCII padding is generated",
                      "components ending in a backslash are not generated (the syntax cannot express them)"],
